@@ -46,6 +46,7 @@ func accelFamilies(thorough bool) (jobs []job) {
 	add("BUMP", bump, "", profP0, 5)
 	add("BUMP", bump, "G", profP0, 4)
 	add("BUMP", bump, "m", profP6, 4)
+	add("ALTREP", altRepFamily(), "", profP0, 4)
 	add("LOOPALT", loopAltFamily(), "", profP0, 5)
 	add("LOOP3", loop3Family(false), "", profP0, 5)
 	for _, o := range []optSet{"", "G", "R"} {
